@@ -195,7 +195,7 @@ pub fn query_case() -> impl Strategy<Value = QueryCase> {
         proptest::collection::vec(any::<u16>(), 16),
         any::<u16>(),
         proptest::bool::weighted(0.8),
-        proptest::collection::vec((0u8..8, 0u16..1500), 0..3),
+        prop_oneof![30 => proptest::collection::vec((0u8..8, 0u16..1500), 0..3), 1 => (0u8..6, 60_000u16..65_000).prop_map(|x| vec![x])],
     )
         .prop_map(|(shards, stored, foreign, owned_ids, owned, class, only_baked, use_iter, choices, caller_pos, controlled, delays)| {
             // owned ids mostly name stored tracks (every 4th one stays arbitrary = possibly missing)
